@@ -95,6 +95,16 @@ def strategy_(draw, tier):
         ents.append(dict(tdir=tdir, base=base, orig=orig, date=date, dc=dc, kind=kind,
                          payload=payload, old=expect_old))
     orphans = [list(draw(st.sampled_from(tds))) for _ in range(draw(st.integers(0, 2)))]
+    tdsel = draw(st.sampled_from([None, None, None, None, "first", "two", "all_listed", "glob_named"]))
+    if tdsel == "glob_named":
+        # --trash-dir names a directory whose NAME contains pattern characters, next to a directory
+        # that the name, read as a pattern, would match: only the named one may be touched
+        named, neigh = draw(st.sampled_from([("/data/backup[1]", "/data/backup1"), ("/data/old?", "/data/olds"),
+                                             ("/data/t*", "/data/tx"), ("/data/[!a]b", "/data/cb")]))
+        osecs = max(thr - 86400 * 400, -31556908800 + 86400 * 366)
+        for td, nm in ((named, "g-named"), (neigh, "g-neighbour")):
+            ents.append(dict(tdir=td, base=None, orig="/data/w/" + nm, date=gen.date_str(osecs),
+                             dc="rand_old", kind="file", payload=True, old=True))
     return {"layout": tw.layout, "uid": tw.uid, "days": days, "now": now, "via": via, "usec": usec,
             # the world's time zone (hours east of UTC): DeletionDate and "now" are both LOCAL time
             "tz": draw(st.sampled_from([None, None, None, 9, -8, 5.5, -3.5, 14, -12])),
@@ -102,7 +112,7 @@ def strategy_(draw, tier):
             # the readers take the volume list from $TRASH_VOLUMES when it is set (empty items allowed)
             "tv": draw(st.sampled_from([None, None, "plain", "empties"])),
             # --trash-dir (one or several): only the named directories may be touched
-            "tdsel": draw(st.sampled_from([None, None, None, "first", "two", "all_listed"]))}
+            "tdsel": tdsel}
 
 
 def strategy(tier):
@@ -159,6 +169,8 @@ def run_case(case):
         sel = alltd[:2]
     elif case.get("tdsel") == "all_listed":
         sel = list(alltd)
+    elif case.get("tdsel") == "glob_named":
+        sel = [e["tdir"] for e in case["ents"] if e["orig"] == "/data/w/g-named"]
     tdargs = []
     for td in (sel or []):
         tdargs += ["--trash-dir", td]
